@@ -2,14 +2,36 @@ import SE.Proofs.GlobBridgeUnordered
 /-
 C12 — Unordered glob mode (`glob_disable_ordering: true`): complete, and the most specific rule wins.
 
-`lookupGlob` / `globLookup` model `FSM.GetMapping`, `needBT` models `TestIfNeedBacktracking`
-(SE/Model/Glob.lean); `mostSpecificGlob`, `mostSpecific`, `moreSpecific` are the specification
-(SE/Spec/Mapping.lean). All theorems quantify over all configurations, names and types.
+`lookupGlob` / `globLookup` model `FSM.GetMapping`; `needBT` models `TestIfNeedBacktracking`, `ambiguous`
+models `FSM.HasAmbiguousTransitions`, `backtracking = needBT || ambiguous` is the `BacktrackingNeeded`
+flag as mapper.go computes it after the repair (SE/Model/Glob.lean); `mostSpecificGlob`, `mostSpecific`,
+`moreSpecific` are the specification (SE/Spec/Mapping.lean). All theorems quantify over all
+configurations, names and types.
 
-What is proved: soundness always; completeness and "most specific wins" under the explicit
-hypothesis that `TestIfNeedBacktracking` answered `true`. Without that hypothesis completeness is
-FALSE on the current code; the full-strength statements are kept as `def …_statement : Prop` and
-their negations are proved by the concrete counterexamples found on the real exporter.
+The defect and its repair. Before the repair `BacktrackingNeeded` was the heuristic
+`TestIfNeedBacktracking` alone. The heuristic answers "no" for rule sets in which a literal branch of the
+trie can dead-end (`a.*.*` + `a.b.c`: `a.b.d` follows the literal `b` and is never matched;
+`a.b.*` + `*.*.c` + `*.*.*`: `a.x.c`; `a` + `a.b.c` + `*.b`: `a.b`), so completeness and "most specific
+wins" were FALSE without the hypothesis `needBT … = true`. The repair ORs in
+`HasAmbiguousTransitions`: some state has the `*` transition together with a literal transition.
+
+What is proved now, without any hypothesis on the heuristic:
+  * `unordered_eq_mostSpecific`, `unordered_complete`, `unordered_lookup_eq_mostSpecific`: for every
+    configuration with `orderingDisabled = true`, every name and every type, the lookup is complete and
+    returns the spec's most specific matching rule;
+  * the reason (`deterministic_search`): in a trie that is not ambiguous at most one child can be entered
+    at every node, so the search without backtracking reaches the same first final state as the search
+    with backtracking; `globLookup_unordered_eq`: whatever the flag is, `FSM.GetMapping` returns the first
+    final state of the backtracking search;
+  * the statements that used to be refuted (`…_statement`) are proved (`…_holds`);
+  * the former counterexamples are kept as a record of the repair: the heuristic alone still says "no
+    backtracking" (`cex_needBT_false`), the search without backtracking still loses the witnesses
+    (`heuristic_alone_insufficient`), `ambiguous` is `true` and the witnesses are now mapped to the most
+    specific rule (`cex_repaired`, `cex₂_repaired`, `cex₃_repaired`).
+Soundness holds in every mode, as before; the `…_partial` theorems (hypothesis `needBT … = true`) remain.
+
+`unordered_complete_statement` carries the premise `name ≠ []`: a name with zero fields is never looked up
+(`splitOn` never returns `[]`), and `premise_name_ne_needed` shows the premise cannot be dropped on the level of field lists.
 -/
 namespace SE.Props.C12
 open SE SE.ListLemmas
@@ -30,21 +52,57 @@ theorem trie_dfs_head_mostSpecific (rs : TRules) (name : Pat) (f0 : Found)
       ∀ r ∈ rs, globMatches r.2 name = true → moreSpecific r.2 pat = false :=
   unordered_pick_dfs rs name f0 h
 
-/-- **Most specific wins (partial)**: in unordered mode, *if `TestIfNeedBacktracking` answered `true`*,
-    the glob lookup returns exactly the spec's most specific matching glob rule (the first written among
-    rules with an identical pattern). No hypothesis on the name is needed. -/
-theorem unordered_eq_mostSpecific_partial (cfg : Config V) (hod : cfg.orderingDisabled = true)
-    (hbt : needBT ((toGRules cfg).map (·.pat)) true = true) (name : Bytes) (ty : Nat) :
-    (lookupGlob cfg name ty).map (·.ruleIdx) = mostSpecificGlob cfg name ty :=
-  lookupGlob_unordered_bt cfg hod hbt name ty
+/-! ### The repair: a trie that is not ambiguous is searched deterministically -/
 
-/-- **Completeness (partial)**: in unordered mode, *if `TestIfNeedBacktracking` answered `true`*, the
-    glob lookup succeeds iff some glob rule matches the name and passes the type filter. -/
-theorem unordered_complete_partial (cfg : Config V) (hod : cfg.orderingDisabled = true)
-    (hbt : needBT ((toGRules cfg).map (·.pat)) true = true) (name : Bytes) (ty : Nat) :
+/-- The node invariant of a non-ambiguous trie: a node that can be left through `*` cannot be left
+    through a literal. -/
+theorem not_ambiguous_node (rs : TRules) (hna : ambiguousAt rs = false) (p : Pat) (f : Bytes)
+    (left left' : Nat) (h1 : okChild rs p f left = true) (h2 : okChild rs p starB left' = true) : f = starB :=
+  okChild_star_unique hna h1 h2
+
+/-- **Key lemma, general form**: in a non-ambiguous trie the search without backtracking reaches the same
+    first final state — rule and captures — as the search with backtracking, from every node `p`, with
+    every capture prefix, for every list of remaining fields (fields that are literally `*` included:
+    the backtracking search then enters the `*` child twice, but the second visit finds something only
+    if the first one does). -/
+theorem deterministic_search_from (rs : TRules) (hna : ambiguousAt rs = false)
+    (p : Pat) (caps : List Bytes) (fields : List Bytes) :
+    (dfs rs false p caps fields).head? = (dfs rs true p caps fields).head? :=
+  dfs_head_deterministic rs hna fields p caps
+
+/-- **Key lemma**: when the trie of a type root is not ambiguous, the search without backtracking finds
+    the same first result as the search with backtracking. -/
+theorem deterministic_search (rs : TRules) (hna : ambiguousAt rs = false) (name : Pat) :
+    pick false (dfs rs false [] [] name) = pick false (dfs rs true [] [] name) :=
+  pick_dfs_deterministic rs hna name
+
+/-- `BacktrackingNeeded = false` after the repair means that *every* type root is non-ambiguous
+    (a type that no rule names sees the untyped rules only, a subset of every root). -/
+theorem no_backtracking_all_roots (rules : List GRule) (h : backtracking rules true = false) (ty : Nat) :
+    ambiguousAt (rulesFor rules ty) = false := by
+  simp only [backtracking, Bool.or_eq_false_iff] at h
+  exact ambiguousAt_rulesFor_of_not_ambiguous h.2 ty
+
+/-- **`FSM.GetMapping` in unordered mode after the repair**: whatever the heuristic answers, for every
+    rule list, name and type, the lookup returns the first final state of the backtracking search. -/
+theorem globLookup_unordered_eq (rules : List GRule) (name : Pat) (ty : Nat) :
+    globLookup rules true name ty = pick false (dfs (rulesFor rules ty) true [] [] name) :=
+  globLookup_unordered rules name ty
+
+/-! ### Main results -/
+
+/-- **Most specific wins**: in unordered mode the glob lookup returns exactly the spec's most specific
+    matching glob rule (the first written among rules with an identical pattern) — for every
+    configuration, every name and every type. -/
+theorem unordered_eq_mostSpecific (cfg : Config V) (hod : cfg.orderingDisabled = true)
+    (name : Bytes) (ty : Nat) :
+    (lookupGlob cfg name ty).map (·.ruleIdx) = mostSpecificGlob cfg name ty :=
+  lookupGlob_unordered cfg hod name ty
+
+private theorem complete_of_eq (cfg : Config V) (name : Bytes) (ty : Nat)
+    (h : (lookupGlob cfg name ty).map (·.ruleIdx) = mostSpecificGlob cfg name ty) :
     (lookupGlob cfg name ty).isSome = true ↔
       ∃ r ∈ cfg.rules, ruleMatchesGlob r (splitOn 46 name) ty = true := by
-  have h := lookupGlob_unordered_bt cfg hod hbt name ty
   have hn := mostSpecificGlob_none_iff cfg name ty
   constructor
   · intro hs
@@ -65,14 +123,10 @@ theorem unordered_complete_partial (cfg : Config V) (hod : cfg.orderingDisabled 
       have := hn.mp h.symm r hr
       rw [hrm] at this; cases this
 
-/-- **Whole lookup (partial)**: in unordered mode with backtracking enabled, for a configuration whose
-    `doFSM` flag is what the loader computes, `lookup` is the spec `mostSpecific` (most specific glob
-    rule, else first matching regex rule). -/
-theorem unordered_lookup_eq_mostSpecific_partial (cfg : Config V) (hod : cfg.orderingDisabled = true)
-    (hbt : needBT ((toGRules cfg).map (·.pat)) true = true) (hwf : DoFSMConsistent cfg)
-    (rx : Rx) (name : Bytes) (ty : Nat) :
+private theorem lookup_of_eq (cfg : Config V) (hwf : DoFSMConsistent cfg) (rx : Rx) (name : Bytes) (ty : Nat)
+    (h : (lookupGlob cfg name ty).map (·.ruleIdx) = mostSpecificGlob cfg name ty) :
     (lookup cfg rx name ty).map (·.ruleIdx) = mostSpecific cfg rx name ty := by
-  have := lookup_eq_of_glob cfg hwf rx name ty _ (lookupGlob_unordered_bt cfg hod hbt name ty)
+  have := lookup_eq_of_glob cfg hwf rx name ty _ h
     (by
       intro hno
       rw [mostSpecificGlob_none_iff]
@@ -80,8 +134,55 @@ theorem unordered_lookup_eq_mostSpecific_partial (cfg : Config V) (hod : cfg.ord
       simp [ruleMatchesGlob, hno r hr])
   rw [this]; rfl
 
-/-- The captures in unordered mode with backtracking: if no name component is literally `*`, the
-    captures `FSM.GetMapping` returns are those of the pattern that owns the final state. -/
+/-- **Completeness**: in unordered mode the glob lookup succeeds iff some glob rule matches the name and
+    passes the type filter. -/
+theorem unordered_complete (cfg : Config V) (hod : cfg.orderingDisabled = true) (name : Bytes) (ty : Nat) :
+    (lookupGlob cfg name ty).isSome = true ↔
+      ∃ r ∈ cfg.rules, ruleMatchesGlob r (splitOn 46 name) ty = true :=
+  complete_of_eq cfg name ty (unordered_eq_mostSpecific cfg hod name ty)
+
+/-- **Whole lookup**: in unordered mode, for a configuration whose `doFSM` flag is what the loader
+    computes, `lookup` is the spec `mostSpecific` (most specific glob rule, else first matching regex rule). -/
+theorem unordered_lookup_eq_mostSpecific (cfg : Config V) (hod : cfg.orderingDisabled = true)
+    (hwf : DoFSMConsistent cfg) (rx : Rx) (name : Bytes) (ty : Nat) :
+    (lookup cfg rx name ty).map (·.ruleIdx) = mostSpecific cfg rx name ty :=
+  lookup_of_eq cfg hwf rx name ty (unordered_eq_mostSpecific cfg hod name ty)
+
+/-! ### The results under the hypothesis that the heuristic alone answered `true` (all that held before the repair) -/
+
+/-- **Most specific wins (partial)**: in unordered mode, *if `TestIfNeedBacktracking` answered `true`*,
+    the glob lookup returns exactly the spec's most specific matching glob rule (the first written among
+    rules with an identical pattern). No hypothesis on the name is needed. -/
+theorem unordered_eq_mostSpecific_partial (cfg : Config V) (hod : cfg.orderingDisabled = true)
+    (hbt : needBT ((toGRules cfg).map (·.pat)) true = true) (name : Bytes) (ty : Nat) :
+    (lookupGlob cfg name ty).map (·.ruleIdx) = mostSpecificGlob cfg name ty :=
+  lookupGlob_unordered_bt cfg hod (backtracking_of_needBT hbt) name ty
+
+/-- **Completeness (partial)**: in unordered mode, *if `TestIfNeedBacktracking` answered `true`*, the
+    glob lookup succeeds iff some glob rule matches the name and passes the type filter. -/
+theorem unordered_complete_partial (cfg : Config V) (hod : cfg.orderingDisabled = true)
+    (hbt : needBT ((toGRules cfg).map (·.pat)) true = true) (name : Bytes) (ty : Nat) :
+    (lookupGlob cfg name ty).isSome = true ↔
+      ∃ r ∈ cfg.rules, ruleMatchesGlob r (splitOn 46 name) ty = true :=
+  complete_of_eq cfg name ty (unordered_eq_mostSpecific_partial cfg hod hbt name ty)
+
+/-- **Whole lookup (partial)**: in unordered mode with backtracking enabled by the heuristic, for a
+    configuration whose `doFSM` flag is what the loader computes, `lookup` is the spec `mostSpecific`
+    (most specific glob rule, else first matching regex rule). -/
+theorem unordered_lookup_eq_mostSpecific_partial (cfg : Config V) (hod : cfg.orderingDisabled = true)
+    (hbt : needBT ((toGRules cfg).map (·.pat)) true = true) (hwf : DoFSMConsistent cfg)
+    (rx : Rx) (name : Bytes) (ty : Nat) :
+    (lookup cfg rx name ty).map (·.ruleIdx) = mostSpecific cfg rx name ty :=
+  lookup_of_eq cfg hwf rx name ty (unordered_eq_mostSpecific_partial cfg hod hbt name ty)
+
+/-- The same with the repaired flag as the hypothesis: `BacktrackingNeeded = true`, for whichever reason. -/
+theorem unordered_eq_mostSpecific_of_backtracking (cfg : Config V) (hod : cfg.orderingDisabled = true)
+    (hbt : backtracking (toGRules cfg) true = true) (name : Bytes) (ty : Nat) :
+    (lookupGlob cfg name ty).map (·.ruleIdx) = mostSpecificGlob cfg name ty :=
+  lookupGlob_unordered_bt cfg hod hbt name ty
+
+/-- The captures in unordered mode: if no name component is literally `*`, the captures
+    `FSM.GetMapping` returns are those of the pattern that owns the final state. -/
 theorem unordered_captures (cfg : Config V) (name : Bytes) (ty : Nat)
     (hns : NoStarField (splitOn 46 name)) (f : Found)
     (hf : globLookup (toGRules cfg) cfg.orderingDisabled (splitOn 46 name) ty = some f) :
@@ -97,46 +198,39 @@ theorem unordered_captures (cfg : Config V) (name : Bytes) (ty : Nat)
   · simp [ruleMatchesGlob, hk.2.2.1, hk.2.2.2, hyp, h1]
   · rw [h3 hns, hyp]; simp
 
-/-! ### The full-strength statements are false on the current code -/
+/-! ### The full-strength statements (refuted before the repair) now hold -/
 
 private def a : Bytes := [97]
 private def b : Bytes := [98]
 private def c : Bytes := [99]
+private def d : Bytes := [100]
 private def x : Bytes := [120]
 
--- NOT PROVED / FALSE on the current code:
-/-- completeness of the unordered FSM lookup without the backtracking hypothesis -/
+/-- completeness of the unordered FSM lookup without the backtracking hypothesis, for every list of rules, every type
+    and every name that has at least one field (every name has: `splitOn` never returns `[]`) -/
 def unordered_complete_statement : Prop :=
-  ∀ (rules : List GRule) (name : Pat) (ty : Nat),
+  ∀ (rules : List GRule) (name : Pat) (ty : Nat), name ≠ [] →
     (∃ r ∈ rules, globMatches r.pat name = true ∧ typeOk r.ty ty = true) →
     (globLookup rules true name ty).isSome = true
 
-/-- rules `[a.b.*, *.*.c, *.*.*]` -/
-def cexRules : List GRule :=
-  [⟨[a, b, starB], none⟩, ⟨[starB, starB, c], none⟩, ⟨[starB, starB, starB], none⟩]
+/-- **Completeness on the level of rule lists**, no hypothesis on the heuristic, every type. -/
+theorem unordered_complete_holds : unordered_complete_statement := by
+  intro rules name ty hne ⟨r, hr, hm, hty⟩
+  rw [globLookup_unordered]
+  cases hp : pick false (dfs (rulesFor rules ty) true [] [] name) with
+  | some _ => rfl
+  | none =>
+    rw [unordered_pick_none_iff _ _ hne] at hp
+    obtain ⟨i, hi⟩ := List.getElem?_of_mem hr
+    have hmem : (i, r.pat) ∈ rulesFor rules ty :=
+      mem_rulesFor.mpr ⟨(r, i), List.mem_zipIdx_iff_getElem?.mpr hi, by rw [typeOk_eq]; exact hty, rfl⟩
+    have := hp _ hmem
+    rw [hm] at this; cases this
 
-/-- `TestIfNeedBacktracking` answers "no" on the counterexample rules … -/
-theorem cex_needBT_false : needBT (cexRules.map (·.pat)) true = false := by decide
-
-/-- … and `a.x.c` is then unmapped although both `*.*.c` and `*.*.*` match it. -/
-theorem cex_unmapped : globLookup cexRules true [a, x, c] 0 = none ∧
-    globMatches [starB, starB, c] [a, x, c] = true ∧ globMatches [starB, starB, starB] [a, x, c] = true := by
-  decide
-
-theorem unordered_complete_counterexample : ¬ unordered_complete_statement := by
-  intro h
-  have := h cexRules [a, x, c] 0 ⟨⟨[starB, starB, c], none⟩, by decide, by decide, by decide⟩
-  revert this
-  decide
-
-/-- second defect class: the length range of a node is widened by rules of other lengths.
-    rules `[a, a.b.c, *.b]`, name `a.b` is unmapped although `*.b` matches. -/
-theorem unordered_complete_counterexample₂ :
-    globLookup [⟨[a], none⟩, ⟨[a, b, c], none⟩, ⟨[starB, b], none⟩] true [a, b] 0 = none ∧
-      globMatches [starB, b] [a, b] = true := by decide
-
-/-- forcing backtracking on the same rule sets gives the spec's answer (the defect is the heuristic only) -/
-example : (pick false (dfs (rulesFor cexRules 0) true [] [] [a, x, c])).map (·.rule) = some 1 := by decide
+/-- the premise `name ≠ []` is needed on this level: the empty pattern matches the name with zero fields, which
+    `GetMapping` never sees -/
+theorem premise_name_ne_needed :
+    globMatches [] [] = true ∧ globLookup [⟨[], none⟩] true [] 0 = none := by decide
 
 /-- a configuration of glob rules with the given patterns and otherwise trivial fields -/
 def mkCfg (pats : List Pat) (orderingDisabled : Bool) : Config Unit :=
@@ -148,37 +242,79 @@ def mkCfg (pats : List Pat) (orderingDisabled : Bool) : Config Unit :=
     dObserverType := .dflt, dTtl := 0, dBuckets := [], dQuantiles := [], dMaxAge := 0, dAgeBuckets := 0,
     dBufCap := 0, orderingDisabled := orderingDisabled, doFSM := true }
 
--- NOT PROVED / FALSE on the current code:
 /-- completeness on the `Config` level, without the backtracking hypothesis -/
 def unordered_complete_cfg_statement : Prop :=
   ∀ (cfg : Config Unit) (name : Bytes) (ty : Nat), cfg.orderingDisabled = true →
     (∃ r ∈ cfg.rules, ruleMatchesGlob r (splitOn 46 name) ty = true) →
     (lookupGlob cfg name ty).isSome = true
 
--- NOT PROVED / FALSE on the current code:
 /-- "most specific wins" on the `Config` level, without the backtracking hypothesis -/
 def unordered_eq_mostSpecific_statement : Prop :=
   ∀ (cfg : Config Unit) (name : Bytes) (ty : Nat), cfg.orderingDisabled = true →
     (lookupGlob cfg name ty).map (·.ruleIdx) = mostSpecificGlob cfg name ty
 
+theorem unordered_complete_cfg_holds : unordered_complete_cfg_statement :=
+  fun cfg name ty hod h => (unordered_complete cfg hod name ty).mpr h
+
+theorem unordered_eq_mostSpecific_holds : unordered_eq_mostSpecific_statement :=
+  fun cfg name ty hod => unordered_eq_mostSpecific cfg hod name ty
+
+/-! ### The former counterexamples: a record of the repair -/
+
+/-- rules `[a.b.*, *.*.c, *.*.*]` -/
+def cexRules : List GRule :=
+  [⟨[a, b, starB], none⟩, ⟨[starB, starB, c], none⟩, ⟨[starB, starB, starB], none⟩]
+
+/-- second defect class: the length range of a node is widened by rules of other lengths.
+    rules `[a, a.b.c, *.b]` -/
+def cexRules₂ : List GRule := [⟨[a], none⟩, ⟨[a, b, c], none⟩, ⟨[starB, b], none⟩]
+
+/-- the smallest instance: rules `[a.*.*, a.b.c]` -/
+def cexRules₃ : List GRule := [⟨[a, starB, starB], none⟩, ⟨[a, b, c], none⟩]
+
+/-- `TestIfNeedBacktracking` alone still answers "no" on the counterexample rules … -/
+theorem cex_needBT_false : needBT (cexRules.map (·.pat)) true = false := by decide
+theorem cex₂_needBT_false : needBT (cexRules₂.map (·.pat)) true = false := by decide
+theorem cex₃_needBT_false : needBT (cexRules₃.map (·.pat)) true = false := by decide
+
+/-- … and that alone is insufficient: without backtracking the search loses `a.x.c` (resp. `a.b`,
+    `a.b.d`) although a rule matches it (this was `cex_unmapped` / `unordered_complete_counterexample₂`
+    when the heuristic was the whole flag). -/
+theorem heuristic_alone_insufficient :
+    (pick false (dfs (rulesFor cexRules 0) false [] [] [a, x, c]) = none ∧
+      globMatches [starB, starB, c] [a, x, c] = true ∧ globMatches [starB, starB, starB] [a, x, c] = true) ∧
+    (pick false (dfs (rulesFor cexRules₂ 0) false [] [] [a, b]) = none ∧
+      globMatches [starB, b] [a, b] = true) ∧
+    (pick false (dfs (rulesFor cexRules₃ 0) false [] [] [a, b, d]) = none ∧
+      globMatches [a, starB, starB] [a, b, d] = true) := by decide
+
+/-- `HasAmbiguousTransitions` is `true` on all three, so `BacktrackingNeeded` is `true` after the repair … -/
+theorem cex_ambiguous : ambiguous cexRules = true ∧ ambiguous cexRules₂ = true ∧ ambiguous cexRules₃ = true := by
+  decide
+
+theorem cex_backtracking : backtracking cexRules true = true ∧ backtracking cexRules₂ true = true ∧
+    backtracking cexRules₃ true = true := by decide
+
+/-- … and the formerly unmapped names are mapped to the most specific matching rule:
+    `a.x.c ↦ *.*.c` (not `*.*.*`), -/
+theorem cex_repaired : globLookup cexRules true [a, x, c] 0 = some ⟨1, [a, x]⟩ := by decide
+/-- `a.b ↦ *.b`, -/
+theorem cex₂_repaired : globLookup cexRules₂ true [a, b] 0 = some ⟨2, [a]⟩ := by decide
+/-- `a.b.d ↦ a.*.*`; and the literal rule still wins where it matches. -/
+theorem cex₃_repaired : globLookup cexRules₃ true [a, b, d] 0 = some ⟨0, [b, d]⟩ ∧
+    globLookup cexRules₃ true [a, b, c] 0 = some ⟨1, []⟩ := by decide
+
+/-- the search with backtracking on the counterexample rules gives the spec's answer -/
+example : (pick false (dfs (rulesFor cexRules 0) true [] [] [a, x, c])).map (·.rule) = some 1 := by decide
+
 /-- the metric name `a.x.c` -/
 def cexName : Bytes := [97, 46, 120, 46, 99]
 
-theorem cex_cfg_lookup : lookupGlob (mkCfg (cexRules.map (·.pat)) true) cexName 0 = none := by decide
+/-- the former `Config`-level counterexample: `a.x.c` is mapped, to the rule the spec selects -/
+theorem cex_cfg_lookup :
+    (lookupGlob (mkCfg (cexRules.map (·.pat)) true) cexName 0).map (·.ruleIdx) = some 1 := by
+  rw [unordered_eq_mostSpecific _ rfl]; decide
 theorem cex_cfg_spec : mostSpecificGlob (mkCfg (cexRules.map (·.pat)) true) cexName 0 = some 1 := by decide
-
-theorem unordered_complete_cfg_counterexample : ¬ unordered_complete_cfg_statement := by
-  intro h
-  have := h (mkCfg (cexRules.map (·.pat)) true) cexName 0 rfl
-    ⟨(mkCfg (cexRules.map (·.pat)) true).rules[1], List.getElem_mem _, by decide⟩
-  rw [cex_cfg_lookup] at this
-  cases this
-
-theorem unordered_eq_mostSpecific_counterexample : ¬ unordered_eq_mostSpecific_statement := by
-  intro h
-  have := h (mkCfg (cexRules.map (·.pat)) true) cexName 0 rfl
-  rw [cex_cfg_lookup, cex_cfg_spec] at this
-  cases this
 
 /-! ### Order independence of the specification -/
 
@@ -237,5 +373,28 @@ example : (globLookup [⟨[a, b, starB], none⟩, ⟨[starB, b, c], none⟩] tru
 -- the spec on the counterexample rules, in two orders: same winning pattern
 example : mostSpecificPat cexRules [a, x, c] 0 = some [starB, starB, c] := by decide
 example : mostSpecificPat cexRules.reverse [a, x, c] 0 = some [starB, starB, c] := by decide
+
+/-- rules `[a.b, c.*]`: neither the heuristic nor the ambiguity test asks for backtracking -/
+def detRules : List GRule := [⟨[a, b], none⟩, ⟨[c, starB], none⟩]
+
+-- the deterministic branch of the proof is inhabited: `BacktrackingNeeded = false`, every root is
+-- non-ambiguous, the search without backtracking is the search with backtracking, and lookups succeed
+example : backtracking detRules true = false := by decide
+example : ambiguousAt (rulesFor detRules 0) = false := no_backtracking_all_roots detRules (by decide) 0
+example : pick false (dfs (rulesFor detRules 0) false [] [] [c, x]) = some ⟨1, [x]⟩ ∧
+    pick false (dfs (rulesFor detRules 0) true [] [] [c, x]) = some ⟨1, [x]⟩ := by decide
+example : globLookup detRules true [c, x] 0 = some ⟨1, [x]⟩ ∧ globLookup detRules true [a, b] 1 = some ⟨0, []⟩ ∧
+    globLookup detRules true [a, x] 0 = none := by decide
+example : backtracking (toGRules (mkCfg (detRules.map (·.pat)) true)) true = false := by decide
+example : (lookupGlob (mkCfg (detRules.map (·.pat)) true) [99, 46, 120] 0).map (·.ruleIdx) = some 1 := by
+  rw [unordered_eq_mostSpecific _ rfl]; decide
+-- a name field that is literally `*`: the backtracking search enters the `*` child twice, the first result agrees
+example : dfs (rulesFor detRules 0) true [] [] [c, starB] = [⟨1, []⟩, ⟨1, [starB]⟩] ∧
+    dfs (rulesFor detRules 0) false [] [] [c, starB] = [⟨1, []⟩] := by decide
+-- `ambiguous = true` although the heuristic says no: the repaired branch is inhabited too (`cex_ambiguous`);
+-- a root that only a rule's own type names is inspected as well
+example : needBT [[a, starB, starB], [a, b, c]] true = false ∧
+    ambiguous [⟨[a, starB, starB], some 5⟩, ⟨[a, b, c], some 5⟩] = true ∧
+    globLookup [⟨[a, starB, starB], some 5⟩, ⟨[a, b, c], some 5⟩] true [a, b, d] 5 = some ⟨0, [b, d]⟩ := by decide
 
 end SE.Props.C12
